@@ -84,15 +84,17 @@ def arch_id(arch):
 
 
 # ---------------------------------------------------------------------------
-# debug information: reflective projection of the object graph (no knowledge of the classes):
-# every object becomes {"cls": ClassName, "f": [[attr, value]...]} with attributes sorted by
-# name; shared / recursive objects are numbered in first-visit order ({"ref": n}).
+# debug information: reflective projection of the object graph *by value* (no knowledge of the
+# classes): every object becomes {"cls": ClassName, "f": [[attr, value]...]} with attributes sorted by
+# name.  Sharing of sub-objects is not part of the value (a reloaded graph may share less or more);
+# only a reference back into the path being expanded (recursive types) is exported, as the number
+# of levels to go up.
 def project_debug(dbg):
     if dbg is None:
         return {"none": True}
-    seen = {}
+    stack = []
 
-    def go(x, depth=0):
+    def go(x):
         if x is None:
             return {"k": "none"}
         if isinstance(x, bool):
@@ -105,21 +107,22 @@ def project_debug(dbg):
             return {"k": "str", "v": x}
         if isinstance(x, (bytes, bytearray)):
             return {"k": "bytes", "v": bytes(x).hex()}
-        if isinstance(x, (list, tuple)):
-            return {"k": "seq", "v": [go(e, depth + 1) for e in x]}
-        if isinstance(x, dict):
-            return {"k": "map", "v": [[go(k, depth + 1), go(v, depth + 1)] for k, v in x.items()]}
-        if id(x) in seen:
-            return {"k": "ref", "v": seen[id(x)]}
-        seen[id(x)] = len(seen)
-        n = seen[id(x)]
-        d = getattr(x, "__dict__", None)
-        if d is None:
-            slots = [s for c in type(x).__mro__ for s in getattr(c, "__slots__", ())]
-            d = {s: getattr(x, s) for s in slots if hasattr(x, s)}
-            if isinstance(x, tuple):  # namedtuple
+        if id(x) in stack:
+            return {"k": "cycle", "up": len(stack) - stack.index(id(x))}
+        stack.append(id(x))
+        try:
+            if isinstance(x, (list, tuple)) and not hasattr(x, "_asdict"):
+                return {"k": "seq", "v": [go(e) for e in x]}
+            if isinstance(x, dict):
+                return {"k": "map", "v": [[go(k), go(v)] for k, v in x.items()]}
+            d = getattr(x, "__dict__", None)
+            if hasattr(x, "_asdict"):  # namedtuple
                 d = x._asdict()
-        return {"k": "obj", "n": n, "cls": type(x).__name__,
-                "f": [[a, go(d[a], depth + 1)] for a in sorted(d)]}
+            if d is None:
+                slots = [s for c in type(x).__mro__ for s in getattr(c, "__slots__", ())]
+                d = {s: getattr(x, s) for s in slots if hasattr(x, s)}
+            return {"k": "obj", "cls": type(x).__name__, "f": [[a, go(d[a])] for a in sorted(d)]}
+        finally:
+            stack.pop()
 
     return {"none": False, "g": go(dbg)}
